@@ -752,3 +752,47 @@ def register(reg):
         allow_exc=("AssertionError",),
         note="AssertionError from the assertion inside predict is not excluded deductively (it is monitored at run time)",
         props=["C01", "C03", "C04", "C05", "C13", "C18"])
+
+    # ------------------------------------------------------------------------------------------------
+    # Balancer.__try_cache / __rebalance_batch over the ghost file system of contracts/cache.py (C12, C05)
+    from contracts import cache as _cache
+    _cache.register(reg)
+    CM = Ty("opt", Obj("CacheManager"))
+    REFS = "cache_manager._CacheManager__cache_refs"
+    reg.contract("synrbl/SynUtils/batching.py", "CacheManager.get_hash_key", params={"self": Obj("CacheManager"), "data": VAL}, returns=STR,
+                 assumed=True, note="sha256 of json.dumps(data, sort_keys=True): some string (which fields reach it is a syntactic obligation of C12)",
+                 props=["C12"])
+    STORED = "LOADS(fs_content({REFS}[result[2]]))".format(REFS=REFS)
+    reg.contract(
+        FBAL, "Balancer.__try_cache",
+        params={"self": Obj("Balancer"), "cache_manager": CM, "batch": ROWS},
+        returns=Tuple(VAL, VAL, Ty("opt", STR)),
+        ensures=[
+            # no cache: nothing is loaded
+            "implies(is_none(cache_manager), is_none(result[0]) and is_none(result[2]))",
+            # a hit returns exactly the two fields of the parsed stored entry; an unreadable or non-dictionary entry is a miss [C12]
+            "implies(not is_none(result[0]), not is_none(cache_manager) and not is_none(result[2]) and result[2] in {REFS} and "
+            "is_ref({ST}) and result[0] == as_row({ST})['result'] and 'result' in as_row({ST}))".format(REFS=REFS, ST=STORED),
+            "implies(not is_none(result[0]) and not is_none(result[1]), result[1] == as_row({ST})['stats'])".format(ST=STORED),
+        ],
+        # environment: an indexed entry that was deleted after the index was built (load_cache's FileNotFoundError is not among the
+        # handled exceptions); C12 quantifies over interrupted writes, not over deletions by other processes
+        raises={"FileNotFoundError": None},
+        modifies=[],
+        props=["C12"])
+
+    reg.contract(
+        FBAL, "Balancer.__rebalance_batch",
+        params={"self": Obj("Balancer"), "batch": ROWS, "cache_manager": CM},
+        returns=Tuple(VAL, VAL),
+        requires=CFG + [NOTOOL.replace("reactions", "batch"), "distinct_rows(batch)"],
+        ensures=[
+            # without a cache the file system is not touched
+            "implies(is_none(cache_manager), forall(STR, lambda p: fs_exists(p) == old(fs_exists(p)) and fs_content(p) == old(fs_content(p))))",
+        ],
+        # whatever the pipeline raises is contained here (the batch is lost, the run goes on: C05's known finding, C11); only the
+        # deleted-entry case of __try_cache escapes
+        raises={"FileNotFoundError": None},
+        modifies=["*FS.exists", "*FS.content", "*D.str.val.dom", "*D.str.val.val", "*D.str.int.dom", "*D.str.int.val",
+                  "*L.ref.len", "*L.ref.elem"],
+        props=["C12", "C05"])
